@@ -303,6 +303,13 @@ def cell_sweep(fc, cell, at):
     loops = [inner]
     layers = None
     head = fc.cfg.node_of(inner)
+    # for cell in itertools.chain.from_iterable(NL) / chain(*NL): every cell of every layer, in layer order
+    if isinstance(layer_expr, ast.Call) and _src(layer_expr.func) in ("itertools.chain.from_iterable", "chain.from_iterable") and \
+            len(layer_expr.args) == 1 and is_nodelist_expr(fc, layer_expr.args[0], head):
+        return dict(layers=("all",), loops=loops, partial=_partial_of(fc, loops))
+    if isinstance(layer_expr, ast.Call) and _src(layer_expr.func) in ("itertools.chain", "chain") and len(layer_expr.args) == 1 and \
+            isinstance(layer_expr.args[0], ast.Starred) and is_nodelist_expr(fc, layer_expr.args[0].value, head):
+        return dict(layers=("all",), loops=loops, partial=_partial_of(fc, loops))
     # the layer: NL[h] / get_layer_node_list(h) with h a range variable, or the element variable of a loop over NL
     if isinstance(layer_expr, ast.Name):
         dl, el = fc.reaching(layer_expr.id, head)
@@ -360,6 +367,11 @@ def cell_sweep(fc, cell, at):
                     loops.insert(0, dh[0][0].ast)
         if layers is None:
             layers = ("one", h)
+    partial = _partial_of(fc, loops)
+    return dict(layers=layers, loops=loops, partial=partial)
+
+
+def _partial_of(fc, loops):
     partial = []
     for L in loops:
         for x in ast.walk(L):
@@ -370,7 +382,7 @@ def cell_sweep(fc, cell, at):
                     owner = fc.model.up(owner)
                 if isinstance(x, ast.Return) or owner in loops:
                     partial.append("%s at line %s" % (type(x).__name__.lower(), x.lineno))
-    return dict(layers=layers, loops=loops, partial=partial)
+    return partial
 
 
 def sweep_is_all_layers(fc, sw, min_layer=0):
